@@ -198,7 +198,45 @@ def c28(ck, F, tier):
     guarded(ck, rs.sel_cell, F)
 
 
-PROPS = {"C08": c08, "C28": c28, "C10": c10, "C29": c29, "C17": c17, "C01": c01, "C02": c02, "C03": c03, "C04": c04, "C23": c23, "C26": c26}
+def c05(ck, F, tier):
+    import rules_eval as re_
+    ck.explanation = (
+        "Static decision of the bookkeeping that #CIRC! detection and pass-consistency rest on: in evaluate_cell the "
+        "Evaluating/Evaluated test dominates the Evaluating mark, every path from the mark to a return passes an Evaluated "
+        "mark (must-pass-through), the Evaluating arm is the one yielding Error::CIRC and it is the only non-codec producer of "
+        "Error::CIRC in the crate; Model::evaluate clears cells/support/variable stack/lambdas inside the restart loop before "
+        "any evaluate_cell, phase 2 iterates get_all_cells(); only evaluate/evaluate_cell write Model.cells. That stored values "
+        "equal the formulas' values is not decided.")
+    ck.rule("TYPESTATE-eval", "Evaluating/Evaluated mark discipline, CIRC producer, restart clears", floor=14)
+    guarded(ck, re_.typestate_eval, F)
+
+
+def c21(ck, F, tier):
+    import rules_eval as re_
+    ck.explanation = (
+        "Static decision of the correspondence itself: from_excel_date is the translation NaiveDate(Y,M,D)+(d-k) and "
+        "date->serial is num_days_from_ce-EXCEL_DATE_BASE; the literals are read from the MIR and the identity "
+        "EXCEL_DATE_BASE = ordinal(Y,M,D)-k is checked with proleptic-Gregorian ordinals; both range tests use the same two "
+        "bounds, which map to 1899-12-31 and 9999-12-31. Two translations with equal offsets over one interval are mutually "
+        "inverse bijections. Every use of Datelike::num_days_from_ce in both crates subtracts that same constant, and no "
+        "ordinal is turned into a date except through from_excel_date.")
+    ck.rule("CONST", "date<->serial conversions are inverse translations; all sites use the same base", floor=10, exhaustive=True)
+    ck.trust("chrono's NaiveDate arithmetic and leap-year rules; Python datetime ordinals as the reference for the identity")
+    guarded(ck, re_.date_const, F)
+
+
+def c34(ck, F, tier):
+    import rules_names as rn
+    ck.explanation = (
+        "Static decision by finite-domain path interpretation of next_state over its four inputs: it is a bijection forming "
+        "one 4-cycle (F,F)->(T,T)->(F,T)->(T,F); and by provenance of every append to cycle_endpoint's result: only the "
+        "constant '$', the column slice mapped through to_ascii_uppercase, and the row slice - so only $ markers and letter "
+        "case can change. Span arithmetic of the token rewriting is not decided (panic sites are under C11).")
+    ck.rule("TABLE-cycle", "next_state is a 4-cycle; cycle_endpoint output built from '$', upper-cased column, row", floor=10, exhaustive=True)
+    guarded(ck, rn.table_cycle, F)
+
+
+PROPS = {"C08": c08, "C34": c34, "C21": c21, "C05": c05, "C28": c28, "C10": c10, "C29": c29, "C17": c17, "C01": c01, "C02": c02, "C03": c03, "C04": c04, "C23": c23, "C26": c26}
 
 
 def run(pid, tier):
